@@ -64,10 +64,15 @@ def main():
     if os.path.exists(notes):
         shutil.copy(notes, os.path.join(dst, "NOTES.md"))
         meta["needs"] = open(notes).read()[:1500]
-    # 3. run the checks against it
-    assert sh("git -C /repo status --porcelain").stdout.strip() == "", "/repo must be clean"
-    r = sh("git -C /repo apply %s" % os.path.join(dst, "patch.diff"))
-    assert r.returncode == 0, r.stdout
+    # 3. run the checks against it: in the scratch worktree itself (VERIF_REPO), never in /repo
+    sh("git checkout -- verif_hooks.go", cwd=wt)
+    for d in demos:
+        shutil.move(d, d + ".aside")
+    ENV["VERIF_REPO"] = wt
+    evdir = os.path.join(VERIF, "evidence")
+    keep = os.path.join(VERIF, ".evidence-keep")
+    shutil.rmtree(keep, ignore_errors=True)
+    shutil.copytree(evdir, keep)
     meta["checks"] = {}
     try:
         for cid in checks:
@@ -84,8 +89,11 @@ def main():
                 if caught:
                     break
     finally:
-        sh("git -C /repo checkout -- .")
+        for d in demos:
+            shutil.move(d + ".aside", d)
         shutil.rmtree(os.path.join(VERIF, "replays"), ignore_errors=True)
+        shutil.rmtree(evdir, ignore_errors=True)  # evidence written against a seeded tree is not evidence
+        shutil.move(keep, evdir)
     json.dump(meta, open(os.path.join(dst, "meta.json"), "w"), indent=1)
     return 0
 
